@@ -23,12 +23,17 @@ pub struct RefRun {
 }
 
 pub fn reference(prog: &[S], budget: u64) -> RefRun {
+    reference_with(prog, budget, 4096)
+}
+
+pub fn reference_with(prog: &[S], budget: u64, max_len: usize) -> RefRun {
     let rejects = static_check(prog);
     let mut r = RefRun { rejects, obs: Val::Null, result: None, unspecified: None, calls: 0, loop_iters: 0, both_ways: false, steps: 0 };
     if !r.rejects.is_empty() {
         return r;
     }
     let mut it = Interp::new(budget);
+    it.max_len = max_len;
     let (env, res) = it.run_program(prog);
     r.calls = it.calls;
     r.loop_iters = it.loop_iters;
